@@ -282,6 +282,77 @@ Definition load_tile_coords (m : mgr) (ev : env) (sc : nat -> outcome) (members 
       end
   end.
 
+(* ---- a request that has to wait for the tile lock --------------------------------------------------------
+   Double-checked locking: _load_tile_coords decides on the state c0 it sees first; before the request gets its
+   first tile lock other requests complete (state s1); under the lock _create_single_tile / _create_meta_tile check
+   again.  What the re-check of the single tile path sees depends on the Tile object it works on:
+     file caches    load_tile_metadata does a fresh lstat, and the loaded source is the file *name* (read lazily):
+                    time stamp and content of the current cache;
+     mbtiles/sqlite load_tile_metadata -> load_tile returns at once for a tile whose source was loaded before the
+                    wait: time stamp and content loaded from c0 (finding C13-sqlite-recheck).
+   The meta tile path re-checks fresh Tile objects: always the current cache. *)
+Definition recheck_uses_loaded (m : mgr) : bool := m_floor_store m.
+
+Definition view (m : mgr) (c0 c : cache) (a : addr) : cache :=
+  if recheck_uses_loaded m then match get c0 a with Some e => put c a e | None => c end else c.
+
+(* _create_single_tile on a Tile object that was loaded from c0 *)
+Definition create_single_v (m : mgr) (ev : env) (sc : nat -> outcome) (c0 : cache) (s : st) (a : addr) : step :=
+  let cv := view m c0 (s_cache s) a in
+  match tm_is_cached m ev cv a with
+  | None => Stop s ECfg
+  | Some true => Cont s [(a, content_of cv a)]
+  | Some false =>
+      let s1 := mkSt (s_cache s) ([a] :: s_log s) in
+      match next_outcome sc s with
+      | UErr =>
+          match tm_is_stale m ev cv a with
+          | None => Stop s1 ECfg
+          | Some true => Cont s1 []
+          | Some false => Stop s1 ESource
+          end
+      | UBlank => Cont s1 []
+      | UBroken => Stop s1 EBody
+      | UOk cacheable auth v0 =>
+          let v := apply_tile_filter m v0 in
+          let fresh := Cont (mkSt (if cacheable then store_tile m ev (s_cache s) a v else s_cache s) (s_log s1))
+                            [(a, Some v)] in
+          if auth then
+            match tm_is_stale m ev cv a with
+            | None => Stop s1 ECfg
+            | Some true => Cont s1 [(a, content_of cv a)]
+            | Some false => fresh
+            end
+          else fresh
+      end
+  end.
+
+(* source of a requested tile that no created tile replaces: what load_tiles put there at the start - for file
+   caches the file name, i.e. the content at the time the answer is read *)
+Definition serve_after (m : mgr) (c0 c_end : cache) (created : list (addr * option Z)) (a : addr) : option Z :=
+  match assoc created a with
+  | Some v => v
+  | None => if recheck_uses_loaded m then content_of c0 a else content_of c_end a
+  end.
+
+(* the request `coords` sees s0 first; if it has to create tiles, the request `other` completes before it gets its
+   first lock *)
+Definition load_after (m : mgr) (ev : env) (sc : nat -> outcome) (members : addr -> list addr)
+           (s0 : st) (coords other : list addr) : st * result :=
+  match uncached m ev (s_cache s0) coords with
+  | None => (s0, Raised ECfg)
+  | Some [] => (s0, Served (map (content_of (s_cache s0)) coords))
+  | Some unc =>
+      let s1 := fst (load_tile_coords m ev sc members s0 other) in
+      let r := if m_meta m
+               then create_loop (create_meta m ev sc) s1 [] (dedupe [] (map members unc))
+               else create_loop (create_single_v m ev sc (s_cache s0)) s1 [] unc in
+      match r with
+      | Stop s' e => (s', Raised e)
+      | Cont s' created => (s', Served (map (serve_after m (s_cache s0) (s_cache s') created) coords))
+      end
+  end.
+
 (* seed/seeder.py TileWalker._walk with refresh_before given (handle_all = False): which of the tiles `l` that are
    created together with the examined (meta) tile are handed to the workers.
      handle_uncached:           [st for st in _tiles_of(t) if not tile_mgr.is_cached(st)]   (= uncached)
@@ -327,6 +398,7 @@ Fixpoint seed_walk (m : mgr) (ev : env) (sc : nat -> outcome) (members : addr ->
 
 Inductive event :=
   | EReq (coords : list addr)
+  | ERace (coords other : list addr)         (* `other` completes while `coords` waits for its first lock *)
   | EProbe (a : addr)                        (* TileManager.is_cached / is_stale called directly *)
   | EClock (t : Z)
   | ERefMtime (t : option Z)                 (* os.utime / unlink of the reference file *)
@@ -345,6 +417,9 @@ Definition step_event (sc : nat -> outcome) (members : addr -> list addr) (w : w
   match e with
   | EReq coords =>
       let '(s', r) := load_tile_coords (w_mgr w) (w_env w) sc members (w_st w) coords in
+      (mkWorld (w_mgr w) (w_env w) s', OReq r)
+  | ERace coords other =>
+      let '(s', r) := load_after (w_mgr w) (w_env w) sc members (w_st w) coords other in
       (mkWorld (w_mgr w) (w_env w) s', OReq r)
   | EProbe a =>
       (w, OProbe (tm_is_cached (w_mgr w) (w_env w) (s_cache (w_st w)) a)
